@@ -216,6 +216,10 @@ func (e *Engine) callFunc(fr *frame, ins ssa.Instruction, fn *ssa.Function, args
 		}
 	case "vcIter":
 		return e.iterValue(fr, ins), reach
+	case "vcSortFact":
+		// ghost lemma instance: true (it is an instance of what the sort model assumes), written out so
+		// that the solver has the instance at hand instead of having to find it
+		return Sc{e.sc.define("sortfact", SBool, e.sortFact(e.scalar(args[0]).T, e.scalar(args[1]).T)), SBool}, reach
 	case "vcSortPerm":
 		// ghost: position, before the most recent sort call, of the element that is at position i
 		// of the sorted range afterwards (identity if nothing was sorted)
@@ -273,6 +277,35 @@ func (e *Engine) callFunc(fr *frame, ins ssa.Instruction, fn *ssa.Function, args
 		if fn.Pkg != nil && strings.HasPrefix(fn.Pkg.Pkg.Path(), repoModule) {
 			return Sc{implies(e.scalar(args[0]).T, e.scalar(args[1]).T), SBool}, reach
 		}
+	}
+	if strings.HasPrefix(fn.Name(), "vcF_") {
+		// final clause: an assertion at this point of the function under verification
+		if e.pure || e.rootC == nil || len(e.stack) == 0 || e.stack[0] != e.root {
+			return Sc{"true", SBool}, reach
+		}
+		var cl *Clause
+		for _, c := range e.rootC.byKind("final") {
+			if c.Pred == fn.Name() {
+				cl = c
+			}
+		}
+		if cl == nil {
+			return Sc{"true", SBool}, reach
+		}
+		savePure, saveGuard := e.pure, e.guard
+		e.pure, e.guard = true, "true"
+		res := e.execFunction(fn, args, nil, "true", heap.clone())
+		e.pure, e.guard = savePure, saveGuard
+		e.oblige(&Obligation{
+			Name:   e.rootName() + ".final." + cl.Label,
+			Kind:   "ensures",
+			Clause: cl.Expr + "   [asserted before the final return]",
+			Goal:   implies(reach, e.scalar(res.ret).T),
+			Pos:    fmt.Sprintf("%s:%d", strings.TrimPrefix(cl.File, e.w.RepoDir+"/"), cl.Line),
+			Func:   e.rootName(),
+			Using:  cl.Using,
+		})
+		return Sc{"true", SBool}, reach
 	}
 	if strings.HasPrefix(fn.Name(), "vcI_") || strings.HasPrefix(fn.Name(), "vcD_") {
 		// ghost calls are consumed by the loop machinery
@@ -504,6 +537,36 @@ func (e *Engine) callByContract(fr *frame, ins ssa.Instruction, fn *ssa.Function
 
 // havocAssigns: a contract without an assigns clause assigns nothing that the
 // engine models (frame obligations check this on the callee's own verification).
+// assignsItem splits "param->Type.field" into its designator and pattern ("" when the item
+// is a plain type-level pattern).
+func assignsItem(item string) (param, pat string) {
+	if i := strings.Index(item, "->"); i > 0 {
+		return strings.TrimSpace(item[:i]), strings.TrimSpace(item[i+2:])
+	}
+	return "", item
+}
+
+// paramRef: the reference (object identity) of the argument passed for parameter name.
+func (e *Engine) paramRef(fn *ssa.Function, args []Val, name string) (string, bool) {
+	for i, p := range fn.Params {
+		if p.Name() == name && i < len(args) {
+			switch x := args[i].(type) {
+			case Sc:
+				if x.S == SRef {
+					return x.T, true
+				}
+			case PtrVal:
+				if len(x.Path) == 0 {
+					return x.Base, true
+				}
+			case SliceVal:
+				return x.Arr, true
+			}
+		}
+	}
+	return "", false
+}
+
 func (e *Engine) havocAssigns(c *Contract, fn *ssa.Function, args []Val, heap Heap) {
 	for _, cl := range c.byKind("assigns") {
 		for _, item := range splitTop(cl.Expr, ',') {
@@ -511,18 +574,29 @@ func (e *Engine) havocAssigns(c *Contract, fn *ssa.Function, args []Val, heap He
 			if item == "" || item == "nothing" {
 				continue
 			}
-			// item is a heap component key pattern: Type.field
-			matched := false
+			// item is a heap component key pattern (Type.field), optionally restricted to the
+			// object a parameter refers to (param->Type.field)
+			pname, pat := assignsItem(item)
+			ref, okRef := "", false
+			if pname != "" {
+				ref, okRef = e.paramRef(fn, args, pname)
+			}
 			for _, k := range e.compOrder {
-				if componentMatches(k, item) {
+				if componentMatches(k, pat) {
 					cp := e.comps[k]
 					fresh := e.sc.declare("Hhavoc_"+k, cp.sort)
-					heap[k] = e.sc.define("Hh_"+k, cp.sort, ite(e.guard, fresh, e.heapGet(heap, cp)))
-					e.dirty[k] = true
-					matched = true
+					cur := e.heapGet(heap, cp)
+					if okRef {
+						heap[k] = e.sc.define("Hh_"+k, cp.sort, sto(cur, ref, ite(e.guard, sel(fresh, ref), sel(cur, ref))))
+						if !e.isFresh(ref) {
+							e.dirty[k] = true
+						}
+					} else {
+						heap[k] = e.sc.define("Hh_"+k, cp.sort, ite(e.guard, fresh, cur))
+						e.dirty[k] = true
+					}
 				}
 			}
-			_ = matched
 		}
 	}
 }
@@ -1171,7 +1245,7 @@ func (e *Engine) cannotInline1(fn *ssa.Function, path map[*ssa.Function]bool) st
 				bn = f.Origin().Name()
 			}
 			switch bn {
-			case "forall", "exists", "forallKeys", "forallStrings", "old", "implies", "vcSame", "vcSortPerm":
+			case "forall", "exists", "forallKeys", "forallStrings", "old", "implies", "vcSame", "vcSortPerm", "vcSortFact":
 				continue // ghost intrinsics: interpreted by the engine, their Go bodies serve the replay only
 			}
 			if c := e.w.contractFor(f); c != nil && len(c.byKind("ensures")) > 0 && !c.Options["trusted"] {
